@@ -1,0 +1,69 @@
+//go:build verif
+
+package base
+
+import (
+	"bufio"
+	"encoding/json"
+	"os"
+	"sync"
+)
+
+// Verification hooks (build tag `verif` only). VerifEmit records one event per specification action at its
+// linearization point. Events go to the in-process sink if one is installed, and to the ndjson file named by
+// VERIF_HOOK_TRACE if set. A global sequence number taken under verifMu orders events; call sites emit while
+// holding the lock that protects the state they describe.
+
+const VerifOn = true
+
+var (
+	verifMu   sync.Mutex
+	verifSeq  uint64
+	verifFile *bufio.Writer
+	verifOnce sync.Once
+	// VerifSink, if non-nil, receives every event (called under verifMu).
+	VerifSink func(ev map[string]any)
+)
+
+func verifInit() {
+	if p := os.Getenv("VERIF_HOOK_TRACE"); p != "" {
+		f, err := os.OpenFile(p, os.O_CREATE|os.O_WRONLY|os.O_APPEND, 0644)
+		if err == nil {
+			verifFile = bufio.NewWriter(f)
+		}
+	}
+}
+
+// VerifEmit records an event: obj identifies the object instance, ev the action, kv alternating keys and values.
+func VerifEmit(obj string, ev string, kv ...any) {
+	verifOnce.Do(verifInit)
+	verifMu.Lock()
+	defer verifMu.Unlock()
+	if VerifSink == nil && verifFile == nil {
+		return
+	}
+	verifSeq++
+	m := map[string]any{"n": verifSeq, "obj": obj, "ev": ev}
+	for i := 0; i+1 < len(kv); i += 2 {
+		if k, ok := kv[i].(string); ok {
+			m[k] = kv[i+1]
+		}
+	}
+	if VerifSink != nil {
+		VerifSink(m)
+	}
+	if verifFile != nil {
+		if b, err := json.Marshal(m); err == nil {
+			_, _ = verifFile.Write(b)
+			_ = verifFile.WriteByte('\n')
+			_ = verifFile.Flush()
+		}
+	}
+}
+
+// VerifSetSink installs (or clears) the in-process sink.
+func VerifSetSink(f func(ev map[string]any)) {
+	verifMu.Lock()
+	defer verifMu.Unlock()
+	VerifSink = f
+}
